@@ -15,6 +15,11 @@ class TooManyPaths(Exception):
     pass
 
 
+# structured values behind the string keys of decisions and of pure-call atoms (read by linarith)
+KEYVALS = {}
+PURECALLS = {}
+
+
 def vkey(v):
     k = v[0]
     if k == "atom":
@@ -578,6 +583,7 @@ class Explorer:
                     v = v[1]
                     flips += 1
                 key = vkey(v)
+                KEYVALS[key] = v
                 is_bool = t[4] == "bool"
                 mapping = None
                 if v[0] == "discr":
@@ -745,7 +751,9 @@ class Explorer:
         if n.startswith("std::boxed::Box::<T>::new") and c.ga:
             return ("atom", "box<%s>(%s)" % (c.ga[0], ",".join(vkey(a) for a in argv)))
         if self.pure(c):
-            return ("atom", "%s(%s)" % (short(n), ",".join(vkey(a) for a in argv)))
+            name = "%s(%s)" % (short(n), ",".join(vkey(a) for a in argv))
+            PURECALLS[name] = (n, tuple(argv))
+            return ("atom", name)
         return ("atom", "call:%s#%d%s" % (short(n), c.ordinal, self.site_suffix))
 
 
